@@ -8,14 +8,14 @@ V=$(cd "$(dirname "$0")/.." && pwd)
 if [ "${IN_REPO:-0}" = 1 ]; then
   cd /repo && test -z "$(git status --porcelain --untracked-files=no)" || { echo "TRY: /repo has uncommitted changes"; exit 2; }
   git apply $P || { echo "TRY: patch does not apply to /repo"; exit 2; }
-  (cd $V && BXSIM_EVIDENCE_DIR=/tmp/try_evidence BXSIM_REPLAY_DIR=$V/replays bin/check $PROP $TIER > /tmp/try_$PROP.log 2>&1); RC=$?
+  (cd $V && BXSIM_EVIDENCE_DIR=/tmp/try_evidence BXSIM_REPLAY_DIR=$V/replays bin/check $PROP $TIER > ${TRYLOG:-/tmp/try_$PROP.log} 2>&1); RC=$?
   git -C /repo checkout -- .
 else
   SCR=$(mktemp -d ${TMPDIR:-/tmp}/bxtry.XXXXXX); R=$SCR/repo
   git -C /repo worktree add -q --detach $R ${BASE:-HEAD} || exit 2
   trap "git -C /repo worktree remove --force $R; rm -rf $SCR" EXIT
   (cd $R && git apply $P) || { echo "TRY: patch does not apply"; exit 2; }
-  (cd $V && BXSIM_REPO=$R BXSIM_BUILD=$SCR/build BXSIM_EVIDENCE_DIR=$SCR/evidence BXSIM_REPLAY_DIR=$SCR/replays bin/check $PROP $TIER > /tmp/try_$PROP.log 2>&1); RC=$?
+  (cd $V && BXSIM_REPO=$R BXSIM_BUILD=$SCR/build BXSIM_EVIDENCE_DIR=$SCR/evidence BXSIM_REPLAY_DIR=$SCR/replays bin/check $PROP $TIER > ${TRYLOG:-/tmp/try_$PROP.log} 2>&1); RC=$?
 fi
-echo "TRY: $PROP $TIER exit=$RC"; grep -E "^(VIOLATION|KNOWN-FINDING|CHECK-BROKEN|HARNESS|OK )" /tmp/try_$PROP.log | cut -c1-250; grep -A2 "^VIOLATION" /tmp/try_$PROP.log | grep -v "^VIOLATION" | cut -c1-400 | head -6
+echo "TRY: $PROP $TIER exit=$RC"; grep -E "^(VIOLATION|KNOWN-FINDING|CHECK-BROKEN|HARNESS|OK )" ${TRYLOG:-/tmp/try_$PROP.log} | cut -c1-250; grep -A2 "^VIOLATION" ${TRYLOG:-/tmp/try_$PROP.log} | grep -v "^VIOLATION" | cut -c1-400 | head -6
 exit $RC
